@@ -5,7 +5,7 @@ import os
 
 from .model import Repo
 
-KINDS = ['reflow', 'noop', 'flip', 'rename', 'invert', 'namedcond', 'tempret', 'augexpand', 'alias', 'swapindep']
+KINDS = ['reflow', 'noop', 'flip', 'rename', 'invert', 'namedcond', 'tempret', 'augexpand', 'alias', 'swapindep', 'annotate']
 
 
 def bound_names(fn):
@@ -260,6 +260,24 @@ def swapindep_tree(tree):
     return tree
 
 
+def annotate_tree(tree):
+    '''every plain assignment of a constant gets a type annotation; every function gets parameter and return annotations'''
+    for parent, fld, body in list(_bodies(tree)):
+        for k, st in enumerate(body):
+            if isinstance(st, ast.Assign) and len(st.targets) == 1 and isinstance(st.targets[0], ast.Name) and isinstance(st.value, ast.Constant) \
+                    and not isinstance(parent, ast.ClassDef):
+                tname = type(st.value.value).__name__ if st.value.value is not None else 'object'
+                body[k] = ast.copy_location(ast.AnnAssign(target=st.targets[0], annotation=ast.Name(id=tname, ctx=ast.Load()), value=st.value, simple=1), st)
+    for fn in ast.walk(tree):
+        if isinstance(fn, (ast.FunctionDef, ast.AsyncFunctionDef)):
+            for a in fn.args.args:
+                if a.arg not in ('self', 'cls') and a.annotation is None:
+                    a.annotation = ast.Constant(value='object')
+            if fn.returns is None:
+                fn.returns = ast.Constant(value='object')
+    return tree
+
+
 def make_overlay(kind, root='/repo'):
     repo = Repo(root)
     out = {}
@@ -271,6 +289,8 @@ def make_overlay(kind, root='/repo'):
             tree = noop_tree(tree)
         elif kind == 'flip':
             tree = Flip().visit(tree)
+        elif kind == 'annotate':
+            tree = annotate_tree(tree)
         elif kind == 'swapindep':
             tree = swapindep_tree(tree)
         elif kind == 'augexpand':
